@@ -681,6 +681,22 @@ def c09_streams(seed, tier):
     return c09_directed("c09d") + gen.app_batch(seed, 300 if tier == "quick" else 10000, prof, "c09r")
 
 
+def wide_stream(prop):
+    """A second, *wide* stream for the app-based properties: every kind of input, condition, modifier, construction route and
+    lifecycle history at once.  The narrow streams above keep other properties' functions out of a property's way; this one is
+    the hedge against what narrowing hides (C12r3: a change keyed on modifier keys, invisible with plain keys).  Because
+    everything is in play here, only differences in the property's *output* facts under equal upstream facts are reported
+    from this stream; upstream differences are counted, not reported (tools/facts.py, check)."""
+    def f(seed, tier):
+        prof = Profile(lifecycle_p=0.08, react_p=0.25, post_p=0.05, ui_p=0.05, held_at_insert_p=0.25, each_p=0.2, route_p=0.2,
+                       preset_p=0.1, time_p=0.15, pads=(0, 2), log_raw_p=1.0 if prop in ("C05", "C06", "C08", "C15", "C16") else 0.3,
+                       n_ctx=(1, 3), n_entities=(1, 3))
+        return gen.app_batch(seed + 7919, 150 if tier == "quick" else 5000, prof, prop.lower() + "w")
+    return f
+
+
+WIDE = {p: wide_stream(p) for p in ("C01", "C02", "C03", "C04", "C05", "C06", "C07", "C08", "C09", "C10", "C12", "C13", "C14", "C15", "C16", "C19")}
+
 PROPS = {
     "C01": dict(streams=c01_streams, proj=P_EVENTS),
     "C02": dict(streams=c02_streams, proj=P_LIFECYCLE),
